@@ -3,10 +3,20 @@
 Two real `SSHConnection`s, each over a recording fake transport whose `sendPacket` appends to a FIFO queue
 towards the other side; one real `SSHChannel` on each, opened with the real CHANNEL_OPEN / OPEN_CONFIRMATION
 handshake (so each side's remote window / max packet are what the other side really advertised).  A case is a
-history of calls (write / writeExtended / loseConnection on either side), deliveries of the oldest queued packet
+history of calls (write / writeSequence of a list, tuple or one-shot generator / writeExtended / loseConnection on
+either side), deliveries of the oldest queued packet
 (through the real `packetReceived` dispatch), packets handed in out of band (a non-conforming peer) and drains.
 The same history is run through the Lean model (TwistedModel/Ssh/Channel.lean); the oracle evaluates the property
-on the real code's packets alone."""
+on the real code's packets alone.
+
+Beyond the plain histories (white-box mutation audit, harness/mutants/C36): the two ends may number the channel
+differently (`pre`: other channels opened before on the same connections; every packet's recipient channel number
+is checked, a message that reaches another channel or none is `wrong-channel`); a window / maximum packet of 0 in
+`cfg` means the constructor default (131072 / 32768) and data may be given as `#<n>.<k>` (n bytes (k+i)%251), so
+that packets above 32768 bytes and writes above the default window occur; `hooks` make the application call the
+channel back re-entrantly from startWriting() / stopWriting() / dataReceived() / extReceived() (those cases have no model
+counterpart and are judged by the oracle alone: the re-entrant call is logged where it happens and counts as a
+write / close request at that point of the history)."""
 import struct
 
 from twisted.conch.ssh import channel, common, connection
@@ -18,17 +28,28 @@ HEADLINE = ("TwistedProps.C36.sent_never_exceeds_window_or_maxpacket / each_stre
             "delivered_in_flight_buffered_is_written_before_close / closed_and_drained_everything_written_before_close_was_received / "
             "quiescent_everything_written_was_received / nothing_follows_close_no_packet_for_removed_channel")
 RULE = ("histories of 1..40 ops over a connected channel pair: local windows from {1,2,3,4,5,6,8,13,32,100} and max packets "
-        "from {1,2,3,4,5,8,40} per side; ops = write / writeExtended (types 1,2,7; 0..20 bytes of a per-side running counter) / "
+        "from {1,2,3,4,5,8,40} per side (6 %: some of them 0 = the constructor defaults 131072 / 32768); ops = write / "
+        "writeSequence (30 % of the cases: list, tuple or one-shot generator of 0..n pieces, empty pieces included) / "
+        "writeExtended (types 1,2,7; 0..20 bytes of a per-side running counter) / "
         "loseConnection / deliver-oldest (either direction) / drain-to-quiescence; a third of the cases also hand in packets "
         "out of band (WINDOW_ADJUST of any size, DATA / EXTENDED_DATA inside and outside the window, CLOSE, also after the "
-        "channel is gone); distinct = (window class, op kinds, packet/event kinds seen, refusal/closed/KeyError, whether "
-        "anything stayed buffered, final flags)")
+        "channel is gone); 30 % of the cases run on connections that carry other channels, so that the two ends number the "
+        "channel differently; + one case in six with re-entrant application hooks (startWriting / stopWriting / dataReceived / extReceived "
+        "calling write / writeExtended / writeSequence / loseConnection; oracle-only); + a few cases with default / large windows "
+        "and max packets (up to 200000 / 65536) and writes of 32767..40000 bytes (thorough: up to 140000); "
+        "distinct = (window class, channel numbering, op kinds, iterable kinds, hooks, packet/event kinds seen, "
+        "refusal/closed/KeyError, whether anything stayed buffered, final flags)")
 ASSUMES = [
     "remoteMaxPacket >= 1 and window sizes >= 1 (the property's 'from 1 byte up'; with max packet 0 write() raises ValueError and writeExtended() loops)",
     "the packet queue between the two connections is FIFO and loss-free (the SSH transport layer, property C35)",
-    "startWriting/stopWriting/dataReceived/extReceived/closed are the default hooks (they do not write re-entrantly)",
+    "model-compared cases and all theorems: startWriting/stopWriting/dataReceived/extReceived/closed do not call the channel back; "
+    "re-entrant calls from startWriting/stopWriting/dataReceived/extReceived are covered by the tie's oracle only (no model, no theorem)",
+    "closed() does not call the channel back",
+    "write()/writeExtended() get bytes and writeSequence() an iterable of bytes (the documented types; a caller's bytearray would be "
+    "aliased by writeExtended's extBuf)",
     "incoming DATA/EXTENDED_DATA packets are well formed (declared string length = actual length)",
-    "one channel per connection in the tie (channels share no flow-control state in the code)",
+    "one channel per connection carries traffic in the tie (channels share no flow-control state in the code); the other channels "
+    "of the connection exist only so that local and remote channel numbers differ, and must never receive anything",
     "end-to-end theorems: bytes written after the side's own CLOSE was sent are dropped by the code (conn.sendData is a no-op once "
     "localClosed); the exact-accounting statements therefore count the bytes written before that CLOSE (wroteOpen, the same "
     "convention as the oracle's `written`); the prefix statement holds against all bytes written",
@@ -39,7 +60,7 @@ TRUSTED = [
     "twisted.logger.Logger(observer=…) installed on the connection instance to observe the 'too much data' refusal",
 ]
 MANIFEST = {
-    "text": "Lean theorems (TwistedProps/C36.lean) over the executable model of SSHChannel.write/writeExtended/addWindowBytes/"
+    "text": "Lean theorems (TwistedProps/C36.lean) over the executable model of SSHChannel.write/writeSequence/writeExtended/addWindowBytes/"
             "loseConnection and SSHConnection.ssh_CHANNEL_DATA/EXTENDED_DATA/WINDOW_ADJUST/CLOSE/adjustWindow/sendClose: for every "
             "history of calls and incoming packets, bytes sent never exceed the window granted and every data packet is at most "
             "remoteMaxPacket long; the packets of each stream concatenated, plus what is still buffered, are exactly what was written, "
@@ -51,7 +72,10 @@ MANIFEST = {
             "prefix of the bytes written; delivered ++ in flight ++ (buffered, if the sender has not closed) = the bytes written before "
             "the sender's CLOSE, exactly, at every moment (so once a closed side's queue has drained its peer has received all of them); and "
             "with windows >= 1, whenever both queues are empty and neither side is closing, every stream has been received completely "
-            "and all buffers are empty.  The model is tied to the real classes by differential runs of whole histories.",
+            "and all buffers are empty.  The model is tied to the real classes by differential runs of whole histories "
+            "(writeSequence of lists / tuples / one-shot iterables, constructor-default and > 32768-byte windows and packets, "
+            "connections whose two ends number the channel differently); histories in which the application calls the channel "
+            "back from startWriting / stopWriting / dataReceived / extReceived are checked on the real code by the property oracle only.",
     "note": "trusts Lean kernel, the hand-written model (differentially tied), the fake transport; FIFO loss-free packet queue assumed",
     "technique": "Lean 4 proof (step invariants + induction over histories, pair invariant: exact credit conservation, "
                  "nothing follows CLOSE, per-stream delivered/in-flight/buffered accounting) + differential tie",
@@ -66,7 +90,26 @@ def hx(b):
 
 
 def unhx(s):
-    return b"" if s == "-" else bytes.fromhex(s)
+    """`-` = empty, `#<n>.<k>` = n bytes (k + i) % 251 (large data without a large case), else lower-case hex"""
+    if s == "-":
+        return b""
+    if s[0] == "#":
+        n, k = s[1:].split(".")
+        return bytes((int(k) + i) % 251 for i in range(int(n)))
+    return bytes.fromhex(s)
+
+
+def pieces(s):
+    """writeSequence argument: `~` = no piece, else pieces separated by `/`"""
+    return [] if s == "~" else [unhx(x) for x in s.split("/")]
+
+
+DEFAULT_WINDOW, DEFAULT_MAXPKT = 131072, 32768     # SSHChannel.__init__: `localWindow or 131072`, `localMaxPacket or 32768`
+
+
+def eff_cfg(cfg):
+    """what a channel constructed with these arguments advertises (0 = the constructor default)"""
+    return [cfg[0] or DEFAULT_WINDOW, cfg[1] or DEFAULT_MAXPKT, cfg[2] or DEFAULT_WINDOW, cfg[3] or DEFAULT_MAXPKT]
 
 
 # ---------------------------------------------------------------------------------------
@@ -77,10 +120,16 @@ class _Transport:
 
     def __init__(self, side, queue, log):
         self.side, self.queue, self.log = side, queue, log
+        self.expect = None                            # the peer's number for the channel of the case
 
     def sendPacket(self, messageType, payload):
         self.queue.append((messageType, payload))
-        self.log.append(self.side + _show_packet(messageType, payload))
+        tok = _show_packet(messageType, payload)
+        if self.expect is not None and len(payload) >= 4 and tok[0] != "?":
+            to = struct.unpack(">L", payload[:4])[0]
+            if to != self.expect:
+                tok += "@%d" % to                     # addressed to some other channel
+        self.log.append(self.side + tok)
 
     def sendUnimplemented(self):
         raise AssertionError("unhandled packet")
@@ -101,24 +150,64 @@ def _show_packet(t, p):
 class _Chan(channel.SSHChannel):
     name = b"c36"
 
-    def __init__(self, side, log, **kw):
+    def __init__(self, side, log, hooks=None, **kw):
         channel.SSHChannel.__init__(self, **kw)
         self.side, self.xlog = side, log
+        self.hooks = hooks or {}                      # hook name → list of action groups, one group per invocation
+        self.call = None                              # set by _Pair: performs one action on this channel
+
+    def _fire(self, name):
+        groups = self.hooks.get(name)
+        if groups:
+            for act in groups.pop(0):
+                self.xlog.append(self.side + "+" + act)      # the re-entrant call, logged where it happens
+                self.call(act)
 
     def dataReceived(self, data):
         self.xlog.append(self.side + "r" + hx(data))
+        self._fire("data")
 
     def extReceived(self, dataType, data):
         self.xlog.append("%se%d:%s" % (self.side, dataType, hx(data)))
+        self._fire("ext")
+
+    def startWriting(self):
+        self._fire("start")
+
+    def stopWriting(self):
+        self._fire("stop")
 
     def closed(self):
         self.xlog.append(self.side + "fin")
 
 
+class _Dummy(channel.SSHChannel):
+    """another channel of the same connection; nothing of the case's channel may ever reach it"""
+    name = b"dum"
+
+    def __init__(self, side, log, **kw):
+        channel.SSHChannel.__init__(self, **kw)
+        self.side, self.xlog = side, log
+
+    def dataReceived(self, data):
+        self.xlog.append(self.side + "?r" + hx(data))
+
+    def extReceived(self, dataType, data):
+        self.xlog.append("%s?e%d:%s" % (self.side, dataType, hx(data)))
+
+    def addWindowBytes(self, n):
+        self.xlog.append("%s?W%d" % (self.side, n))
+        channel.SSHChannel.addWindowBytes(self, n)
+
+    def closeReceived(self):
+        self.xlog.append(self.side + "?C")
+        channel.SSHChannel.closeReceived(self)
+
+
 class _Conn(connection.SSHConnection):
-    def __init__(self, side, log, lw, lmp):
+    def __init__(self, side, log, lw, lmp, hooks=None):
         connection.SSHConnection.__init__(self)
-        self.side, self.xlog, self.lw, self.lmp = side, log, lw, lmp
+        self.side, self.xlog, self.lw, self.lmp, self.hooks = side, log, lw, lmp, hooks
         self.made = None
 
         def observe(event):
@@ -127,27 +216,71 @@ class _Conn(connection.SSHConnection):
         self._log = Logger(observer=observe)
 
     def channel_c36(self, windowSize, maxPacket, data):
-        self.made = _Chan(self.side, self.xlog, localWindow=self.lw, localMaxPacket=self.lmp,
+        self.made = _Chan(self.side, self.xlog, hooks=self.hooks, localWindow=self.lw, localMaxPacket=self.lmp,
                           remoteWindow=windowSize, remoteMaxPacket=maxPacket)
         return self.made
 
+    def channel_dum(self, windowSize, maxPacket, data):
+        return _Dummy(self.side, self.xlog, localWindow=64, localMaxPacket=64,
+                      remoteWindow=windowSize, remoteMaxPacket=maxPacket)
+
 
 class _Pair:
-    def __init__(self, cfg):
-        lwA, lmpA, lwB, lmpB = cfg
+    def __init__(self, cfg, pre=(0, 0, 0), hooks=None):
+        lwA, lmpA, lwB, lmpB = cfg                    # 0 = the constructor's default
+        hooks = {s: {k: [list(g) for g in v] for k, v in (hooks or {}).get(s, {}).items()} for s in "ab"}
         self.log = []
         self.q = {"a": [], "b": []}                   # q[s] = packets waiting to be delivered TO s
-        self.conn = {"a": _Conn("a", self.log, lwA, lmpA), "b": _Conn("b", self.log, lwB, lmpB)}
+        self.conn = {"a": _Conn("a", self.log, lwA, lmpA), "b": _Conn("b", self.log, lwB, lmpB, hooks["b"])}
         self.conn["a"].transport = _Transport("a", self.q["b"], self.log)
         self.conn["b"].transport = _Transport("b", self.q["a"], self.log)
-        ca = _Chan("a", self.log, localWindow=lwA, localMaxPacket=lmpA)
+        # other channels of the same connections, so that the two ends number the case's channel differently:
+        # pre = (opens by a that are never answered, opens by b that are never answered, channels open on both)
+        ua, ub, both = pre
+        for s, n in (("a", ua), ("b", ub)):
+            for _ in range(n):
+                self.conn[s].openChannel(_Dummy(s, self.log, localWindow=64, localMaxPacket=64))
+                self.q["b" if s == "a" else "a"].pop(0)
+        for _ in range(both):
+            self.conn["a"].openChannel(_Dummy("a", self.log, localWindow=64, localMaxPacket=64))
+            self.conn["b"].packetReceived(*self.q["b"].pop(0))
+            self.conn["a"].packetReceived(*self.q["a"].pop(0))
+        ca = _Chan("a", self.log, hooks=hooks["a"], localWindow=lwA, localMaxPacket=lmpA)
         self.conn["a"].openChannel(ca)
         self.conn["b"].packetReceived(*self.q["b"].pop(0))
         self.conn["a"].packetReceived(*self.q["a"].pop(0))
         assert not self.q["a"] and not self.q["b"]
         self.chan = {"a": ca, "b": self.conn["b"].made}
         self.ids = {"a": ca.id, "b": self.chan["b"].id}
+        assert self.ids == {"a": ua + both, "b": ub + both}
+        self.conn["a"].transport.expect = self.ids["b"]
+        self.conn["b"].transport.expect = self.ids["a"]
+        for s in "ab":
+            self.chan[s].call = (lambda act, s=s: self.call(s, act))
         del self.log[:]
+
+    def call(self, s, act):
+        """one application call `act` (`w:<data>`, `x:<t>:<data>`, `s:<kind>:<pieces>`, `l`) on side s's channel"""
+        ch = self.chan[s]
+        f = act.split(":")
+        if f[0] == "w" and len(f) == 2:
+            ch.write(unhx(f[1]))
+        elif f[0] == "x" and len(f) == 3:
+            ch.writeExtended(int(f[1]), unhx(f[2]))
+        elif f[0] == "s" and len(f) == 3:
+            ps = pieces(f[2])
+            if f[1] == "L":
+                ch.writeSequence(ps)
+            elif f[1] == "T":
+                ch.writeSequence(tuple(ps))
+            elif f[1] == "G":
+                ch.writeSequence(p for p in ps)       # one-shot iterable
+            else:
+                raise ValueError(act)
+        elif f == ["l"]:
+            ch.loseConnection()
+        else:
+            raise ValueError(act)
 
     def handin(self, s, t, payload):
         try:
@@ -177,13 +310,8 @@ class _Pair:
                 segs.append(self.take())
             return ";".join(segs) if segs else "~"
         k, s, f = o[0], o[1], o[2:].split(":")[1:]
-        ch = self.chan[s]
-        if k == "w":
-            ch.write(unhx(f[0]))
-        elif k == "x":
-            ch.writeExtended(int(f[0]), unhx(f[1]))
-        elif k == "l":
-            ch.loseConnection()
+        if k in "wxsl":
+            self.call(s, k + o[2:])
         elif k == "d":
             self.deliver(s)
         elif k == "i":
@@ -211,14 +339,17 @@ class _Pair:
 
 
 def run_impl(c):
-    p = _Pair(c["cfg"])
+    p = _Pair(c["cfg"], tuple(c.get("pre", (0, 0, 0))), c.get("hooks"))
     segs = [p.op(o) for o in c["ops"]]
     return ("|".join(segs) if segs else "-") + " A=" + p.state("a") + " B=" + p.state("b") + \
         " Q=%d,%d" % (len(p.q["b"]), len(p.q["a"]))
 
 
 def model_line(c):
-    return "run " + ",".join(str(x) for x in c["cfg"]) + (" " + " ".join(c["ops"]) if c["ops"] else "")
+    if c.get("hooks"):
+        return None                                   # re-entrant application hooks: judged by the oracle only
+    # the channel numbers (`pre`) are elided in the model; 0 in cfg = the constructor default
+    return "run " + ",".join(str(x) for x in eff_cfg(c["cfg"])) + (" " + " ".join(c["ops"]) if c["ops"] else "")
 
 
 # ---------------------------------------------------------------------------------------
@@ -238,7 +369,7 @@ class _Watch:
     """Replays the history against the observed packets and events."""
 
     def __init__(self, c):
-        lwA, lmpA, lwB, lmpB = c["cfg"]
+        lwA, lmpA, lwB, lmpB = eff_cfg(c["cfg"])
         self.pure = _pure(c)
         self.peer = {"a": "b", "b": "a"}
         self.granted = {"a": lwB, "b": lwA}           # window the peer has granted to the sender s
@@ -260,6 +391,8 @@ class _Watch:
         f = o[2:].split(":")[1:]
         if k == "w" and not self.closed[s]:
             self.written[s][0] = self.written[s].get(0, b"") + unhx(f[0])
+        elif k == "s" and not self.closed[s]:         # writeSequence: the pieces, in order, on the normal stream
+            self.written[s][0] = self.written[s].get(0, b"") + b"".join(pieces(f[1]))
         elif k == "x" and not self.closed[s]:
             st = int(f[0]) + 1
             self.written[s][st] = self.written[s].get(st, b"") + unhx(f[1])
@@ -282,6 +415,15 @@ class _Watch:
         for tk in toks:
             s, body = tk[0], tk[1:]
             p = self.peer[s]
+            if body[0] == "+":                        # a call made re-entrantly from an application hook
+                self.user(body[1] + s + body[2:])
+                continue
+            if body[0] == "?":
+                self.fail("wrong-channel", f"another channel of side {s} received {body[1:]!r}: a message of this channel "
+                          f"was addressed to it")
+            if "@" in body:
+                self.fail("wrong-channel", f"side {s} sent {body.split('@')[0][:40]!r} to the peer's channel number "
+                          f"{body.split('@')[1]}, not to this channel's number at the peer (never delivered to it)")
             if body == "R":
                 refusing.add(s)
                 if self.pure:
@@ -422,6 +564,33 @@ def corpus():
         {"cfg": [4, 2, 4, 2], "ops": ["wa:000102030405", "ia:C", "ia:W:10", "ia:C"]},
         {"cfg": [5, 2, 5, 2], "ops": ["wa:00010203040506", "xa:1:0708", "la", "wa:09", "xa:1:0a", "ia:W:3", "ia:W:0", "ia:W:50"]},
         {"cfg": [4, 2, 4, 2], "ops": ["wa:-", "xa:1:-", "wa:00010203", "wa:-", "xa:2:-", "xa:1:-", "ia:W:0", "z"]},
+        # writeSequence: a piece longer than the peer's maximum packet; one-shot iterables (also with a leading empty piece)
+        {"cfg": [100, 4, 100, 4], "ops": ["sa:L:0001/02030405060708090a0b", "z"]},
+        {"cfg": [100, 4, 100, 4], "ops": ["sa:G:0001/0203", "sb:G:-/8081/-/8283", "sa:T:~", "sa:G:~", "z"]},
+        {"cfg": [3, 2, 3, 2], "ops": ["sa:G:0001/02030405", "la", "sa:L:06", "z"]},
+        # the two ends number the channel differently (other channels were opened before on one side / on both)
+        {"cfg": [4, 2, 4, 2], "pre": [1, 0, 0], "ops": ["wa:0001", "xa:1:0203", "wb:8081", "xb:2:82", "z", "la", "z"]},
+        {"cfg": [2, 2, 2, 2], "pre": [0, 2, 1], "ops": ["wa:000102030405", "xb:1:808182838485", "z", "lb", "z"]},
+        # constructor defaults (localWindow=0 → 131072, localMaxPacket=0 → 32768)
+        {"cfg": [0, 0, 0, 0], "ops": ["wa:00", "xb:1:80", "z"]},
+        {"cfg": [0, 3, 5, 0], "ops": ["wa:00010203040506070809", "wb:80818283848586", "z"]},
+        # packets larger than 32768 bytes where the peer advertised a larger maximum; data larger than the default window
+        {"cfg": [0, 40000, 0, 65536], "ops": ["wa:#40000.0", "xb:1:#40000.7", "z"]},
+        {"cfg": [0, 0, 0, 0], "ops": ["wa:#140000.3", "z"]},
+        # application hooks that call the channel back: startWriting() writes while data is still buffered;
+        # dataReceived() echoes / closes
+        {"cfg": [8, 4, 2, 4], "hooks": {"a": {"start": [["w:f0f1f2"]]}}, "ops": ["wa:000102030405", "z"]},
+        {"cfg": [8, 4, 2, 4], "hooks": {"a": {"start": [["x:1:f0f1", "w:f2"], ["l"]]}}, "ops": ["xa:1:000102030405", "z"]},
+        {"cfg": [3, 2, 3, 2], "hooks": {"b": {"data": [["w:8081828384"], ["s:G:85/86", "l"]]}}, "ops": ["wa:0001020304", "z"]},
+        # stopWriting() writes on the other stream / closes (fixed defect: it used to run before the window was debited)
+        {"cfg": [1, 1, 5, 40], "hooks": {"a": {"stop": [["x:1:4445"]]}}, "ops": ["wa:00010203040506", "z"]},
+        {"cfg": [2, 40, 1, 2], "hooks": {"b": {"stop": [["x:2:c0c1c2"]]}}, "ops": ["wb:808182838485868788", "z"]},
+        {"cfg": [8, 4, 3, 4], "hooks": {"a": {"stop": [["w:4041", "l"]]}}, "ops": ["xa:1:000102030405", "z"]},
+        # … and while addWindowBytes() writes the buffered extended-data entries again (same fixed defect)
+        {"cfg": [1, 1, 1, 1], "hooks": {"a": {"stop": [["x:2:42"], ["x:2:4344"]]}}, "ops": ["xa:7:040506", "z"]},
+        {"cfg": [1, 1, 1, 1], "hooks": {"b": {"stop": [["x:2:c0"], ["x:1:c4c5"]]}}, "ops": ["xb:1:8081", "xb:1:93", "z"]},
+        {"cfg": [3, 1, 1, 40], "hooks": {"a": {"stop": [["x:1:404142434445"], ["x:1:4c"]]}},
+         "ops": ["xa:2:000102030405060708090a0b0c0d0e", "db", "xa:1:2f3031", "db", "wb:8f9091929394959697", "da", "z"]},
     ]
 
 
@@ -471,10 +640,116 @@ def _gen(rng, inject):
     return {"cfg": cfg, "ops": ops}
 
 
+PRES = [[1, 0, 0], [0, 1, 0], [2, 0, 0], [0, 2, 1], [1, 0, 1], [0, 1, 2], [1, 2, 0], [1, 1, 0], [0, 0, 1]]
+
+
+def _split(rng, h):
+    """the bytes `h` (hex) as writeSequence pieces: random cut points, empty pieces here and there"""
+    b = unhx(h)
+    ps = []
+    while b:
+        k = rng.choice([1, 1, 2, 3, 5, 8, 20])
+        ps.append(b[:k])
+        b = b[k:]
+    for _ in range(rng.choice([0, 0, 0, 1, 2])):
+        ps.insert(rng.randrange(len(ps) + 1), b"")
+    return "/".join(hx(x) for x in ps) if ps else "~"
+
+
+def _with_seq(rng, c):
+    """some of the write() calls become writeSequence() of a list / tuple / one-shot generator of pieces"""
+    ops = []
+    for o in c["ops"]:
+        if o[0] == "w" and rng.random() < 0.6:
+            o = "s%s:%s:%s" % (o[1], rng.choice("LLGGT"), _split(rng, o[3:]))
+        ops.append(o)
+    return dict(c, ops=ops)
+
+
+def _hook_actions(rng, data, s, closer):
+    acts = []
+    for _ in range(rng.choice([1, 1, 1, 2])):
+        r = rng.random()
+        if r < 0.5:
+            acts.append("w:" + hx(data.take(s, rng.choice([1, 1, 2, 3, 5, 9]))))
+        elif r < 0.75:
+            acts.append("x:%d:%s" % (rng.choice([1, 1, 2]), hx(data.take(s, rng.choice([1, 2, 3, 6])))))
+        elif r < 0.9 or not closer:
+            acts.append("s:%s:%s" % (rng.choice("LG"), _split(rng, hx(data.take(s, rng.choice([1, 2, 4, 7]))))))
+        else:
+            acts.append("l")
+    return acts
+
+
+def _gen_hooks(rng):
+    """a history whose channels call themselves back from startWriting() / dataReceived() / extReceived()"""
+    c = _gen(rng, rng.random() < 0.2)
+    c["cfg"] = [rng.choice([1, 2, 3, 4, 5, 8]), rng.choice(MAXPKTS), rng.choice([1, 2, 3, 4, 5, 8]), rng.choice(MAXPKTS)]
+    data = _Data()
+    data.n = {"a": 0x40, "b": 0xc0}
+    closer = rng.random() < 0.3
+    hooks = {}
+    for s in "ab":
+        h = {}
+        if rng.random() < 0.75:
+            h["start"] = [_hook_actions(rng, data, s, closer) for _ in range(rng.choice([1, 1, 2, 3]))]
+        if rng.random() < 0.4:
+            h["data"] = [_hook_actions(rng, data, s, closer) for _ in range(rng.choice([1, 2, 3]))]
+        if rng.random() < 0.3:
+            h["stop"] = [_hook_actions(rng, data, s, closer) for _ in range(rng.choice([1, 1, 2]))]
+        if rng.random() < 0.15:
+            h["ext"] = [_hook_actions(rng, data, s, closer) for _ in range(rng.choice([1, 2]))]
+        if h:
+            hooks[s] = h
+    if not hooks:
+        hooks = {"a": {"start": [_hook_actions(rng, data, "a", closer)]}}
+    c["hooks"] = hooks
+    if c["ops"][-1] != "z":
+        c["ops"].append("z")
+    return c
+
+
+BIG = [32767, 32768, 32769, 40000]
+
+
+def _gen_big(rng, tier="quick"):
+    """default / large windows and maximum packets, writes around and above 32768 bytes"""
+    cfg = [rng.choice([0, 0, 65536, 200000]), rng.choice([0, 32768, 32769, 40000, 65536]),
+           rng.choice([0, 0, 65536, 200000]), rng.choice([0, 32768, 32769, 40000, 65536])]
+    ops = []
+    for _ in range(rng.choice([1, 1, 2, 3])):
+        s = rng.choice("aab")
+        d = "#%d.%d" % (rng.choice(BIG + ([70000, 140000] if tier != "quick" else [])), rng.randrange(251))
+        r = rng.random()
+        if r < 0.5:
+            ops.append("w%s:%s" % (s, d))
+        elif r < 0.75:
+            ops.append("x%s:1:%s" % (s, d))
+        else:
+            ops.append("s%s:%s:%s/%s" % (s, rng.choice("LG"), d, hx(bytes([rng.randrange(256)]))))
+        if rng.random() < 0.5:
+            ops.append("d" + rng.choice("ab"))
+    if rng.random() < 0.3:
+        ops.append("l" + rng.choice("ab"))
+    ops.append("z")
+    return {"cfg": cfg, "ops": ops}
+
+
 def generate(rng, tier):
     n = 12000 if tier == "quick" else 200000
-    for _ in range(n):
-        yield _gen(rng, rng.random() < 0.4)
+    for i in range(n):
+        c = _gen(rng, rng.random() < 0.4)
+        if rng.random() < 0.3:
+            c = _with_seq(rng, c)
+        if rng.random() < 0.3:
+            c["pre"] = rng.choice(PRES)
+        if rng.random() < 0.06:
+            c["cfg"] = [0 if rng.random() < 0.5 else x for x in c["cfg"]]
+        yield c
+        if i % (5 if tier == "quick" else 8) == 0:
+            yield _gen_hooks(rng)
+        if i % (800 if tier == "quick" else 4000) == 0:
+            yield _gen_big(rng, tier)
 
 
 def search(rng, tier, disagreeing):
@@ -483,10 +758,10 @@ def search(rng, tier, disagreeing):
     for c in disagreeing[:30] + corpus():
         for k in range(len(c["ops"]) + 1):
             pre = c["ops"][:k]
-            yield {"cfg": c["cfg"], "ops": pre}
-            yield {"cfg": c["cfg"], "ops": pre + ["z"]}
-            yield {"cfg": c["cfg"], "ops": pre + ["ia:W:1000", "ib:W:1000", "z"]}
-            yield {"cfg": c["cfg"], "ops": pre + ["la", "lb", "ia:W:1000", "ib:W:1000"]}
+            yield dict(c, ops=pre)
+            yield dict(c, ops=pre + ["z"])
+            yield dict(c, ops=pre + ["ia:W:1000", "ib:W:1000", "z"])
+            yield dict(c, ops=pre + ["la", "lb", "ia:W:1000", "ib:W:1000"])
     for _ in range(4000 if tier == "quick" else 40000):
         c = _gen(rng, True)
         k = rng.randrange(len(c["ops"]) + 1)
@@ -494,26 +769,58 @@ def search(rng, tier, disagreeing):
         yield c
 
 
+def _smaller(h):
+    """smaller variants of one data field"""
+    if h[0] == "#":
+        n, k = h[1:].split(".")
+        return ["#%d.%s" % (v, k) for v in (int(n) // 2, int(n) - 1) if v >= 1]
+    b = unhx(h)
+    return [hx(b[:-1])] if b else []
+
+
 def shrink(c):
     cfg, ops = c["cfg"], c["ops"]
+    for key in ("hooks", "pre"):
+        if key in c:
+            yield {k: v for k, v in c.items() if k != key}
+    for s, h in sorted(c.get("hooks", {}).items()):
+        for name, groups in sorted(h.items()):
+            for i in range(len(groups)):
+                g2 = groups[:i] + groups[i + 1:]
+                h2 = dict(h, **{name: g2}) if g2 else {k: v for k, v in h.items() if k != name}
+                hs = dict(c["hooks"], **{s: h2}) if h2 else {k: v for k, v in c["hooks"].items() if k != s}
+                if hs:
+                    yield dict(c, hooks=hs)
+                for j in range(len(groups[i])):
+                    if len(groups[i]) > 1:
+                        yield dict(c, hooks=dict(c["hooks"], **{s: dict(h, **{name: groups[:i] + [groups[i][:j] + groups[i][j + 1:]] + groups[i + 1:]})}))
     for i in range(len(ops)):
-        yield {"cfg": cfg, "ops": ops[:i] + ops[i + 1:]}
+        yield dict(c, ops=ops[:i] + ops[i + 1:])
     for i, o in enumerate(ops):
-        if o[0] in "wxi" and ":" in o:
+        if o[0] == "s":
+            head, _, ps = o.rpartition(":")
+            ps = [] if ps == "~" else ps.split("/")
+            for j in range(len(ps)):
+                rest = ps[:j] + ps[j + 1:]
+                yield dict(c, ops=ops[:i] + [head + ":" + ("/".join(rest) if rest else "~")] + ops[i + 1:])
+                for v in _smaller(ps[j]):
+                    yield dict(c, ops=ops[:i] + [head + ":" + "/".join(ps[:j] + [v] + ps[j + 1:])] + ops[i + 1:])
+            if o[3] != "L":
+                yield dict(c, ops=ops[:i] + [o[:3] + "L" + o[4:]] + ops[i + 1:])
+        elif o[0] in "wxi" and ":" in o:
             head, _, h = o.rpartition(":")
             if o[0] == "i" and o[3] in "WC":
                 if o[3] == "W" and int(h) > 1:
-                    yield {"cfg": cfg, "ops": ops[:i] + [head + ":" + str(int(h) // 2)] + ops[i + 1:]}
-                    yield {"cfg": cfg, "ops": ops[:i] + [head + ":" + str(int(h) - 1)] + ops[i + 1:]}
+                    yield dict(c, ops=ops[:i] + [head + ":" + str(int(h) // 2)] + ops[i + 1:])
+                    yield dict(c, ops=ops[:i] + [head + ":" + str(int(h) - 1)] + ops[i + 1:])
                 continue
-            b = unhx(h)
-            if b:
-                yield {"cfg": cfg, "ops": ops[:i] + [head + ":" + hx(b[:-1])] + ops[i + 1:]}
+            for v in _smaller(h):
+                yield dict(c, ops=ops[:i] + [head + ":" + v] + ops[i + 1:])
     for j in range(4):
         if cfg[j] > 1:
             for v in (1, cfg[j] // 2, cfg[j] - 1):
                 if 1 <= v < cfg[j]:
-                    yield {"cfg": cfg[:j] + [v] + cfg[j + 1:], "ops": ops}
+                    yield dict(c, cfg=cfg[:j] + [v] + cfg[j + 1:])
 
 
 def tag(c, out):
@@ -525,7 +832,16 @@ def tag(c, out):
             if tk and tk not in ("-", "~"):
                 b = tk[1:]
                 ev.add(b if b in ("R", "C", "fin", "!KeyError") else b[0])
-    wcls = "".join("1" if x == 1 else "s" if x <= 4 else "L" for x in c["cfg"])
+    wcls = "".join("D" if x == 0 else "1" if x == 1 else "s" if x <= 4 else "L" if x <= 100 else "B" for x in c["cfg"])
+    pre = c.get("pre", [0, 0, 0])
+    extra = ("=" if pre[0] == pre[1] else "#") + ("o" if pre[2] else "")
+    if any(o[0] == "s" for o in c["ops"]):
+        extra += "".join(sorted({o[3] for o in c["ops"] if o[0] == "s"}))
+    if any("#" in o for o in c["ops"]):
+        extra += "big"
+    for s_, h in sorted(c.get("hooks", {}).items()):
+        extra += "H" + s_ + "".join(sorted(k[0] + "".join(sorted({a[0] for g in v for a in g})) for k, v in h.items()))
+    wcls += extra
     flags = ""
     if " A=" in out:
         st = out.split(" A=")[1].split(" ")
